@@ -77,6 +77,10 @@ def sh_err(ctx, out, bodies, rule="SH.err", floor=1):
                         used.add(key)
                         out.exception(key, exc[key])
                         continue
+                    if re.search(r"<impl \[T\]>::binary_search(_by|_by_key)?$", callee_name(t)) and "SH.err|found-or-not|binary_search" in exc:
+                        used.add("SH.err|found-or-not|binary_search")
+                        out.exception("SH.err|found-or-not|binary_search", exc["SH.err|found-or-not|binary_search"])
+                        continue
                     # reading one of the documented environment variables: "unset" is not an error,
                     # wherever and with whichever idiom (unwrap_or, is_ok, match) the code reads it
                     envkey = "SH.err|env|%s" % detail
